@@ -121,3 +121,15 @@ package consensus
 //@   ensures [hasVote] err == nil && dyntype(msg) == typeid(*HasVoteMessage) ==> r != nil && dyntype(r.Sum) == typeid(*kcons.Message_HasVote) && unbox(r.Sum, *kcons.Message_HasVote).HasVote.Height == old(unbox(msg, *HasVoteMessage).Height) && unbox(r.Sum, *kcons.Message_HasVote).HasVote.Round == old(unbox(msg, *HasVoteMessage).Round) && unbox(r.Sum, *kcons.Message_HasVote).HasVote.Type == old(unbox(msg, *HasVoteMessage).Type) && unbox(r.Sum, *kcons.Message_HasVote).HasVote.Index == old(unbox(msg, *HasVoteMessage).Index)
 //@   ensures [voteSetMaj23] err == nil && dyntype(msg) == typeid(*VoteSetMaj23Message) ==> r != nil && dyntype(r.Sum) == typeid(*kcons.Message_VoteSetMaj23) && unbox(r.Sum, *kcons.Message_VoteSetMaj23).VoteSetMaj23.Height == old(unbox(msg, *VoteSetMaj23Message).Height) && unbox(r.Sum, *kcons.Message_VoteSetMaj23).VoteSetMaj23.Round == old(unbox(msg, *VoteSetMaj23Message).Round) && unbox(r.Sum, *kcons.Message_VoteSetMaj23).VoteSetMaj23.Type == old(unbox(msg, *VoteSetMaj23Message).Type)
 //@   ensures [voteSetBits] err == nil && dyntype(msg) == typeid(*VoteSetBitsMessage) ==> r != nil && dyntype(r.Sum) == typeid(*kcons.Message_VoteSetBits) && unbox(r.Sum, *kcons.Message_VoteSetBits).VoteSetBits.Height == old(unbox(msg, *VoteSetBitsMessage).Height) && unbox(r.Sum, *kcons.Message_VoteSetBits).VoteSetBits.Round == old(unbox(msg, *VoteSetBitsMessage).Round) && unbox(r.Sum, *kcons.Message_VoteSetBits).VoteSetBits.Type == old(unbox(msg, *VoteSetBitsMessage).Type)
+
+// ---------------------------------------------------------------- C18/C03: a proposal is stored only with a possible POL round
+// Rounds are 1-based and 0 means "no proof-of-lock round": a stored proposal has POLRound 0 or a round
+// strictly below its own. The gossip routine relies on it (it builds the POL bit array from the prevote
+// set of Proposal.POLRound, which exists only for rounds up to Round+1; for any other round the bit
+// array is nil and encoding the ProposalPOL message dereferences nil in a goroutine with no recover).
+//@ func (cs *ConsensusState) setProposal(proposal *types.Proposal) (err error)
+//@   for C18 C03
+//@   requires cs != nil && proposal != nil
+//@   requires cs.Validators != nil && (forall i int :: 0 <= i && i < len(cs.Validators.Validators) ==> cs.Validators.Validators[i] != nil)
+//@   modifies *
+//@   atstore RoundState.Proposal requires [polRoundBelowRound] new != nil ==> new.POLRound == 0 || new.POLRound < new.Round
